@@ -13,6 +13,16 @@ CLAIMED = {
         text="Exhaustive TLC check of an implementation-shaped ring/FIFO specification (capacities 1..4, all widths, clear at any point) decides the design; every Add/Clear edge of TLC's reachable graph is executed on the real ReplayBuffer and MultiAgentReplayBuffer for vector/image/dict/tuple observations with sample(B) for all B, and seeded long runs (capacity up to 64) are recorded; TLC validates each recorded execution against the spec with all invariants on.",
         note="Trusted: TLC, the id codec/projection in vfw/codec.py + vfw/drive/ring.py (decodes storage[:len] / memory field by field), float32 exactness of ids < 2^17. Widths > capacity are outside the property.",
         design="4/C09"),
+    "C10": dict(
+        technique="TLA+ spec NStep.tla (permissive AllowedK exactly as the property states; ImplK = implementation rule) model-checked by TLC + TLC trace validation of the real MultiStepReplayBuffer and its companion 1-step buffer",
+        text="TLC checks NoCross, ReturnDef, StopsOnlyAtEnd, Aligned and ImplAllowed for every placement of done flags (streams <= 6, n <= 3, <= 2 envs, all permitted cuts). The same grid of done placements plus seeded long streams (n 1..5, 1..4 envs, capacity 4..16, PER companion, index-coupled sampling) is executed on the real buffers; after every add both storages are snapshotted and TLC validates the whole execution against the spec.",
+        note="Trusted: TLC, projection in vfw/drive/nstep.py (decodes (t,e) from obs/action, last step from next_obs, scaled return), gamma in {1,1/2,1/4} so float32 returns are exact. Truncation without done is not treated as an episode end.",
+        design="4/C10"),
+    "C11": dict(
+        technique="TLA+ spec PER.tla (implementation-shaped segment trees, exact integer arithmetic) model-checked by TLC + TLC trace validation of the real PrioritizedReplayBuffer (exact mode with stubbed variates; inexact mode with measured facts)",
+        text="TLC checks TreeSum, TreeMin, LeavesOK, PtrOK, MaxPOK, NewGetsMax and SampleOK over all interleavings of add/update/sample for capacities 1..5. Exact-mode executions of the real buffer (alpha=1, integer priorities, variates k/8 incl. stratum ends) are validated by TLC leaf by leaf, index by index and weight by weight (as exact fractions); inexact-mode executions (float priorities incl. 0, 1e-9, 1e8, repeated indices, alpha/beta grid, any batch size) are validated on the discrete state plus tolerance-classified facts.",
+        note="Trusted: TLC, float->fraction conversion (limit_denominator 4096), tolerance 1e-9/1e-5 in inexact mode, driver-side stub of torch.rand during sample(). clear() is outside C11's quantifier.",
+        design="4/C11"),
 }
 NOT_YET = "check not built yet in this round (planned, see DESIGN.md section 4)"
 
